@@ -62,6 +62,7 @@ func main() {
 	dump := flag.String("dump", "", "debug: print the SSA of the functions whose name contains this string")
 	funcs := flag.String("funcs", "", "debug: list function names containing this string")
 	flag.Parse()
+	debug.SetGCPercent(400) // short-lived process: trade memory (< 2 GB) for less GC work
 	if *dump != "" || *funcs != "" {
 		p, err := eng.Load(eng.Config{RepoDir: *repo})
 		if err != nil {
